@@ -68,6 +68,8 @@ def generate(seed, tier, index):
     if tier == "thorough" and isp == "Poisson":
         K = 600
     seeds = [rf.bits(31) for _ in range(K)]
+    if rf.chance(0.5):
+        seeds[rf.randint(0, K - 1)] = rf.choice([0, 0, 1, 2 ** 31 - 1, 2 ** 32 - 1])   # boundary seeds
     # reproducibility: some seeds appear twice
     for _ in range(3):
         seeds.append(seeds[rf.randint(0, K - 1)])
